@@ -582,11 +582,13 @@ class SecopClient(ProxyClient):
         if shutdown:
             self._shutdown.set()
             self._set_state(False, 'shutdown')
-            if self._connthread:
-                if self._connthread == current_thread():
+            # read the attribute once: the thread clears it itself when it ends
+            connthread = self._connthread
+            if connthread:
+                if connthread == current_thread():
                     return
                 # wait for connection thread stopped
-                self._connthread.join()
+                connthread.join()
                 self._connthread = None
         self.disconnect_time = time.time()
         try:  # make sure txq does not block
